@@ -49,7 +49,7 @@ let err_name = function
   | M.ERelTime -> "reltime" | M.EGrouping -> "grouping" | M.ESelfRef -> "selfref" | M.ECycle -> "cycle"
   | M.EMarkNotId -> "marknotid" | M.EExists -> "exists" | M.EUnknownRef -> "unknownref"
   | M.EUnknownTag -> "unknowntag" | M.EUnknownConv -> "unknownconv" | M.EUnknownStream -> "unknownstream"
-  | M.ENotMark -> "notmark" | M.EReferenced -> "referenced" | M.EComplex -> "complex"
+  | M.ENotMark -> "notmark" | M.EReferenced -> "referenced" | M.EComplex -> "complex" | M.ESaveState -> "savestate"
 
 let join l = if l = [] then "-" else Stdlib.String.concat "," l
 
